@@ -74,7 +74,8 @@ class Sim:
         self.deep = deep_log
         self.op_frame_files = set(op_frame_files) | {_THIS_FILE}
         self.budget_factor = budget_factor
-        self.watch_code = watch_code   # engine.on_watch() sees return/exception of this code
+        # engine.on_watch() sees the call/return/exception events of these code objects
+        self.watch = dict(watch_code or {})
         self.n = len(plan["clients"])
         self.opcode = plan.get("granularity", "line") == "opcode"
         # simulated time
@@ -179,9 +180,9 @@ class Sim:
             co = frame.f_code
             self._sha.update(("%s %s %s %s %s\n" % (
                 self.current, event, co.co_name, frame.f_lineno, frame.f_lasti)).encode())
-        if frame.f_code is self.watch_code and (event == "return" or event == "exception"):
+        if frame.f_code in self.watch and event != "line" and event != "opcode":
             try:
-                self.engine.on_watch(self, frame, event, arg)
+                self.engine.on_watch(self, self.watch[frame.f_code], frame, event, arg)
             except BaseException as e:
                 self.harness_error = "on_watch: %r" % (e,)
                 raise Abort("harness-error")
